@@ -10,6 +10,7 @@ query and generate the body of the `FETCH` response IMAP message.
 #
 import email.utils
 import logging
+import re
 from email.header import Header
 from email.message import EmailMessage, Message
 from enum import StrEnum
@@ -28,6 +29,10 @@ from .generator import msg_as_bytes, msg_headers_as_bytes
 from .utils import quoted, quoted_bytes
 
 logger = logging.getLogger("asimap.fetch")
+
+# A header field name that can be sent back to the client as an atom.
+#
+HEADER_FIELD_ATOM_RE = re.compile(r"[A-Za-z0-9!#$&'+./^_`|~-]+")
 
 # A section in a message that can be fetched.
 # XXX `None` indicates the entire message? Or should `Optional` be removed?
@@ -231,8 +236,19 @@ class FetchAtt:
                     # convert that to a proper string for our FETCH response.
                     #
                     if isinstance(s, (list, tuple)):
+                        # NOTE: The field names are astrings: the client may
+                        #       have sent them as quoted strings or literals,
+                        #       with blanks, parentheses or line breaks in
+                        #       them. Only what reads as an atom goes back as
+                        #       it came.
+                        #
                         sect = str(s[0]).upper()
-                        paren = " ".join(x for x in s[1])
+                        paren = " ".join(
+                            x
+                            if HEADER_FIELD_ATOM_RE.fullmatch(x)
+                            else f'"{quoted(x)}"'
+                            for x in s[1]
+                        )
                         sects.append(f"{sect} ({paren})")
                     else:
                         sects.append(str(s).upper())
